@@ -28,6 +28,8 @@ import (
 	"math/rand"
 	"net"
 	"net/netip"
+	"runtime"
+	"runtime/debug"
 	"sort"
 	"strconv"
 	"strings"
@@ -437,7 +439,33 @@ func c08parseEvs(s string) []c08ev {
 
 // one attempt at a history; ok=false when an event started more than tol late.
 func c08histOnce(r *router.VerifRouter, evs []c08ev, timed bool) (string, bool) {
+	var start time.Time
+	if timed {
+		// history time 0 = 500 ms after a tick boundary
+		d := c08sinceTick(time.Now())
+		w := 500*time.Millisecond - d
+		if w < 0 {
+			w += time.Second
+		}
+		start = time.Now().Add(w)
+		return c08runEvents(r, evs, start)
+	}
+	c08awayFromTick(2*time.Millisecond, 60*time.Millisecond)
+	start = time.Now()
+	res, ok := c08runEvents(r, evs, time.Time{})
+	// the whole untimed history must lie inside one clock second
+	if ok && time.Since(start) > 50*time.Millisecond {
+		return "", false
+	}
+	return res, ok
+}
+
+// c08runEvents runs the events at start+t (at once when start is the zero time).
+func c08runEvents(r *router.VerifRouter, evs []c08ev, start time.Time) (string, bool) {
+	timed := !start.IsZero()
+	c08mu.Lock()
 	up := c08ups[r]
+	c08mu.Unlock()
 	nonces := map[int]int64{}
 	nonceOf := func(k int) int64 {
 		if n, ok := nonces[k]; ok {
@@ -448,19 +476,6 @@ func c08histOnce(r *router.VerifRouter, evs []c08ev, timed bool) (string, bool) 
 		return n
 	}
 	var obs []string
-	var start time.Time
-	if timed {
-		// history time 0 = 500 ms after a tick boundary
-		d := c08sinceTick(time.Now())
-		w := 500*time.Millisecond - d
-		if w < 0 {
-			w += time.Second
-		}
-		start = time.Now().Add(w)
-	} else {
-		c08awayFromTick(2*time.Millisecond, 60*time.Millisecond)
-		start = time.Now()
-	}
 	const tol = 120 * time.Millisecond
 	for i, ev := range evs {
 		if timed {
@@ -532,12 +547,6 @@ func c08histOnce(r *router.VerifRouter, evs []c08ev, timed bool) (string, bool) 
 			dnsmsg.ReleaseMsg(resp)
 		}
 	}
-	if !timed {
-		// the whole untimed history must lie inside one clock second
-		if time.Since(start) > 50*time.Millisecond {
-			return "", false
-		}
-	}
 	if len(obs) == 0 {
 		return "-", true
 	}
@@ -555,6 +564,12 @@ func c08hist(m map[string]string) string {
 	}
 	if timed && !cal {
 		return "skip"
+	}
+	if m["procs"] == "1" {
+		// one P makes sync.Pool LIFO and the order of otter's background work repeatable (audit hunt-D finding 2:
+		// histories in which a recycled cache entry would be handed out twice); no GC so that the pool is not emptied
+		defer runtime.GOMAXPROCS(runtime.GOMAXPROCS(1))
+		defer debug.SetGCPercent(debug.SetGCPercent(-1))
 	}
 	for attempt := 0; attempt < 3; attempt++ {
 		var r *router.VerifRouter
@@ -589,6 +604,10 @@ func c08run(cs string) string {
 	case "minttl":
 		return c08minttl(m)
 	case "hist":
+		if res, ok := c08pre[cs]; ok {
+			delete(c08pre, cs)
+			return res
+		}
 		return c08hist(m)
 	}
 	return "bad-op"
@@ -649,7 +668,8 @@ func c08genSec(r *rand.Rand, sec int, allowOpt bool) string {
 	return strings.Join(parts, ",")
 }
 
-var c08maxPool = []int{0, 0, 0, -3, 1, 2, 5, 10, 29, 30, 31, 60, 300, 21600, 86400, 1 << 31}
+// maximum_ttl is limited to ten years (315360000 s) by initCache
+var c08maxPool = []int{0, 0, 0, -3, 1, 2, 5, 10, 29, 30, 31, 60, 300, 21600, 86400, 315359999, 315360000, 315360001, 1 << 31, 1<<32 - 1, 5000000000}
 
 func c08genRcode(r *rand.Rand) int {
 	switch r.Intn(10) {
@@ -795,8 +815,14 @@ func c08genHist(r *rand.Rand, timed bool, durMs int, nEv int) string {
 				if r.Intn(3) == 0 {
 					an += fmt.Sprintf(",1:%d", ttl())
 				}
-				if r.Intn(4) == 0 {
+				switch r.Intn(8) {
+				case 0, 1:
 					ar = "41:0" // OPT last
+				case 2:
+					if kind == "q" { // forward() removes every OPT, wherever it is
+						ar = fmt.Sprintf("41:0,1:%d", 5+ttl())
+						ns = "41:7"
+					}
 				}
 			case 4:
 				rc, an, ns, ar = 3, "-", "-", "-"
@@ -852,6 +878,20 @@ func c08genHist(r *rand.Rand, timed bool, durMs int, nEv int) string {
 	}
 	return fmt.Sprintf("op=hist max=%d ev=%s", max, strings.Join(parts, ";"))
 }
+
+// real-time histories that are always run (hand-written witnesses)
+var c08fixedTimed = []string{
+	"op=hist max=0 ev=0/s/1/0/0/1:2/-/-;300/g/1;700/s/1/3/0/-/-/-;850/g/1;1300/g/1;2700/g/1;3850/g/1",
+	"op=hist max=0 ev=0/s/1/0/0/1:1/-/-;1700/s/1/3/0/-/-/-;1850/g/1;2700/s/1/0/0/1:3/-/-;2850/g/1",
+}
+
+// audit hunt-D finding 2 (GOMAXPROCS=1): if cache entries were recycled, the entry of key 1 (ttl 1) would be handed
+// out twice after the 64th cache write, keys 3 and 2 would share it and key 3 would be lost (and, before a refused
+// set-if-absent released its entry, the SERVFAIL fetched for key 3 at 2.9 s would stay in key 3's 3600 s node)
+const c08sharedEntryHist = "op=hist max=0 procs=1 ev=0/q/1/0/0/1:1/-/-;1200/q/1/0/0/1:3600/-/-;1250/q/100/0/0/1:3600/-/-;1250/q/101/0/0/1:3600/-/-;1250/q/102/0/0/1:3600/-/-;1250/q/103/0/0/1:3600/-/-;1250/q/104/0/0/1:3600/-/-;1250/q/105/0/0/1:3600/-/-;1250/q/106/0/0/1:3600/-/-;1250/q/107/0/0/1:3600/-/-;1250/q/108/0/0/1:3600/-/-;1250/q/109/0/0/1:3600/-/-;1250/q/110/0/0/1:3600/-/-;1250/q/111/0/0/1:3600/-/-;1250/q/112/0/0/1:3600/-/-;1250/q/113/0/0/1:3600/-/-;1250/q/114/0/0/1:3600/-/-;1250/q/115/0/0/1:3600/-/-;1250/q/116/0/0/1:3600/-/-;1250/q/117/0/0/1:3600/-/-;1250/q/118/0/0/1:3600/-/-;1250/q/119/0/0/1:3600/-/-;1250/q/120/0/0/1:3600/-/-;1250/q/121/0/0/1:3600/-/-;1250/q/122/0/0/1:3600/-/-;1250/q/123/0/0/1:3600/-/-;1250/q/124/0/0/1:3600/-/-;1250/q/125/0/0/1:3600/-/-;1250/q/126/0/0/1:3600/-/-;1250/q/127/0/0/1:3600/-/-;1250/q/128/0/0/1:3600/-/-;1250/q/129/0/0/1:3600/-/-;1250/q/130/0/0/1:3600/-/-;1250/q/131/0/0/1:3600/-/-;1250/q/132/0/0/1:3600/-/-;1250/q/133/0/0/1:3600/-/-;1250/q/134/0/0/1:3600/-/-;1250/q/135/0/0/1:3600/-/-;1250/q/136/0/0/1:3600/-/-;1250/q/137/0/0/1:3600/-/-;1250/q/138/0/0/1:3600/-/-;1250/q/139/0/0/1:3600/-/-;1250/q/140/0/0/1:3600/-/-;1250/q/141/0/0/1:3600/-/-;1250/q/142/0/0/1:3600/-/-;1250/q/143/0/0/1:3600/-/-;1250/q/144/0/0/1:3600/-/-;1250/q/145/0/0/1:3600/-/-;1250/q/146/0/0/1:3600/-/-;1250/q/147/0/0/1:3600/-/-;1250/q/148/0/0/1:3600/-/-;1250/q/149/0/0/1:3600/-/-;1250/q/150/0/0/1:3600/-/-;1250/q/151/0/0/1:3600/-/-;1250/q/152/0/0/1:3600/-/-;1250/q/153/0/0/1:3600/-/-;1250/q/154/0/0/1:3600/-/-;1250/q/155/0/0/1:3600/-/-;1250/q/156/0/0/1:3600/-/-;1250/q/157/0/0/1:3600/-/-;1250/q/158/0/0/1:3600/-/-;1250/q/159/0/0/1:3600/-/-;1250/q/160/0/0/1:3600/-/-;1400/q/3/0/0/1:3600/-/-;1400/q/2/0/0/1:1/-/-;2700/q/2/0/0/1:3600/-/-;2750/q/200/0/0/1:3600/-/-;2750/q/201/0/0/1:3600/-/-;2750/q/202/0/0/1:3600/-/-;2750/q/203/0/0/1:3600/-/-;2750/q/204/0/0/1:3600/-/-;2750/q/205/0/0/1:3600/-/-;2750/q/206/0/0/1:3600/-/-;2750/q/207/0/0/1:3600/-/-;2750/q/208/0/0/1:3600/-/-;2750/q/209/0/0/1:3600/-/-;2750/q/210/0/0/1:3600/-/-;2750/q/211/0/0/1:3600/-/-;2750/q/212/0/0/1:3600/-/-;2750/q/213/0/0/1:3600/-/-;2750/q/214/0/0/1:3600/-/-;2750/q/215/0/0/1:3600/-/-;2750/q/216/0/0/1:3600/-/-;2750/q/217/0/0/1:3600/-/-;2750/q/218/0/0/1:3600/-/-;2750/q/219/0/0/1:3600/-/-;2750/q/220/0/0/1:3600/-/-;2750/q/221/0/0/1:3600/-/-;2750/q/222/0/0/1:3600/-/-;2750/q/223/0/0/1:3600/-/-;2750/q/224/0/0/1:3600/-/-;2750/q/225/0/0/1:3600/-/-;2750/q/226/0/0/1:3600/-/-;2750/q/227/0/0/1:3600/-/-;2750/q/228/0/0/1:3600/-/-;2750/q/229/0/0/1:3600/-/-;2750/q/230/0/0/1:3600/-/-;2750/q/231/0/0/1:3600/-/-;2750/q/232/0/0/1:3600/-/-;2750/q/233/0/0/1:3600/-/-;2750/q/234/0/0/1:3600/-/-;2750/q/235/0/0/1:3600/-/-;2750/q/236/0/0/1:3600/-/-;2750/q/237/0/0/1:3600/-/-;2750/q/238/0/0/1:3600/-/-;2750/q/239/0/0/1:3600/-/-;2750/q/240/0/0/1:3600/-/-;2750/q/241/0/0/1:3600/-/-;2750/q/242/0/0/1:3600/-/-;2750/q/243/0/0/1:3600/-/-;2750/q/244/0/0/1:3600/-/-;2750/q/245/0/0/1:3600/-/-;2750/q/246/0/0/1:3600/-/-;2750/q/247/0/0/1:3600/-/-;2750/q/248/0/0/1:3600/-/-;2750/q/249/0/0/1:3600/-/-;2750/q/250/0/0/1:3600/-/-;2750/q/251/0/0/1:3600/-/-;2750/q/252/0/0/1:3600/-/-;2750/q/253/0/0/1:3600/-/-;2750/q/254/0/0/1:3600/-/-;2750/q/255/0/0/1:3600/-/-;2750/q/256/0/0/1:3600/-/-;2750/q/257/0/0/1:3600/-/-;2750/q/258/0/0/1:3600/-/-;2750/q/259/0/0/1:3600/-/-;2900/q/3/2/0/-/-/-;2950/g/3"
+
+// results of the real-time histories the generator already ran (concurrently)
+var c08pre = map[string]string{}
 
 func c08gen(r *rand.Rand, thorough bool, emit func(c, cat string)) {
 	nStore, nSub, nMin, nSeq, nTimed, dur := 6000, 3000, 1500, 1500, 1, 3000
@@ -917,9 +957,26 @@ func c08gen(r *rand.Rand, thorough bool, emit func(c, cat string)) {
 	for i := 0; i < nSeq; i++ {
 		emit(c08genHist(r, false, 0, 2+r.Intn(7)), "hist-untimed")
 	}
+	// the real-time histories run concurrently (each on its own router), the one that needs a single P alone
+	timed := append([]string{}, c08fixedTimed...)
 	for i := 0; i < nTimed; i++ {
-		emit(c08genHist(r, true, dur, 10+r.Intn(14)), "hist-timed")
+		timed = append(timed, c08genHist(r, true, dur, 10+r.Intn(14)))
 	}
+	res := make([]string, len(timed))
+	var wg sync.WaitGroup
+	for i := range timed {
+		wg.Add(1)
+		go func(i int) {
+			defer wg.Done()
+			res[i] = c08hist(kv(timed[i]))
+		}(i)
+	}
+	wg.Wait()
+	for i, cs := range timed {
+		c08pre[cs] = res[i]
+		emit(cs, "hist-timed")
+	}
+	emit(c08sharedEntryHist, "hist-timed-1p")
 }
 
 func init() {
